@@ -13,7 +13,7 @@ CLASSES = ["c_affine", "c_additive", "c_lin", "c_quad", "c_cub", "c_rq", "c_umnn
 RULE = ("Exhaustive: every mask over 2-4 features with entries from {-1, 0, 0.3, 1} having both sides non-empty (7 coupling "
         "classes; UMNN on a sub-grid) x {2-D, 4-D image} x both directions x tails none/linear, mask given as list / tuple / "
         "float, int, bool, uint8 tensor; Hypothesis adds masks over up to 8 features with values {-2.5,-1,0,0.3,1,7}, "
-        "context, unconditional transforms, parameter regimes. Oracles: identity features bit-for-bit unchanged (no "
+        "context, unconditional transforms, parameter regimes, conditioners with dropout 0.3/0.5 and batch norm (evaluation mode). Oracles: identity features bit-for-bit unchanged (no "
         "unconditional transform); moving one transformed input leaves every other output bit-identical and moves its own "
         "output monotonically; Jacobian rows of identity outputs are unit vectors and the transformed block is diagonal with "
         "positive diagonal (exact zeros elsewhere, across channels and pixels); identity_features/transform_features partition "
@@ -74,7 +74,8 @@ def _case(draw):
             "inverse": draw(st.booleans()), "tails": draw(st.booleans()), "ctx": draw(st.sampled_from([None, None, 2])),
             "uncond": draw(st.booleans()), "seed": draw(st.integers(0, 10 ** 6)),
             "regime": draw(st.sampled_from(["fresh", "zero", "small", "moderate", "nonuniform"])), "bins": draw(st.integers(1, 5)),
-            "act": draw(st.sampled_from(["relu", "tanh", "elu"])), "hw": draw(st.sampled_from([[2, 2], [1, 3], [2, 1]]))}
+            "act": draw(st.sampled_from(["relu", "tanh", "elu"])), "hw": draw(st.sampled_from([[2, 2], [1, 3], [2, 1]])),
+            "dropout": draw(st.sampled_from([0.0, 0.0, 0.3, 0.5])), "bn": draw(st.booleans())}
 
 
 def case_strategy(tier):
@@ -107,7 +108,9 @@ def run_case(case):
     cls = case["cls"]
     with dtype_mode(True):
         spec = {"t": cls, "mask": _mask_obj(mask, case["mask_kind"]), "hidden": 4, "blocks": 1, "act": case.get("act", "relu"),
-                "bins": case.get("bins", 3), "tails": "linear" if case["tails"] else None, "tb": 2.0, "use_ctx": True}
+                "bins": case.get("bins", 3), "tails": "linear" if case["tails"] else None, "tb": 2.0, "use_ctx": True,
+                # conditioner options that must be inert in evaluation mode (dropout off, batch norm on its running statistics)
+                "dropout": case.get("dropout", 0.0), "bn": bool(case.get("bn", False))}
         if cls in ("c_affine",) and case["uncond"] and not case["img"]:
             spec["uncond"] = "lu"
         elif cls.startswith(("c_lin", "c_quad", "c_cub", "c_rq")) and case["uncond"]:
